@@ -75,6 +75,15 @@ def params_for(fam, n, K, ps, g, tails):
                     # float32 and the end-point derivative vanishes (saturated, not a bijection); only +huge is meaningful
                     alt, sign = torch.ones_like(alt), torch.ones_like(sign)
                 p[k] = p[k] + mag * alt * sign
+        if fam == "quadratic":
+            # the quadratic spline's heights go through softplus(.) + 1e-3 (a floor that does not depend on the
+            # min_bin_height argument): strongly negative height parameters stay at the floor
+            k = "unnormalized_heights"
+            alt = torch.zeros(p[k].shape[-1])
+            alt[::2] = -1
+            alt = alt if torch.rand(1, generator=g) < 0.7 else -torch.ones_like(alt)
+            mag = torch.where(torch.rand(n, 1, generator=g) < 0.5, 120.0, 800.0)
+            p[k] = p[k] + mag * alt
         return p
     return splineref.random_params(fam, n, K, float(ps), g, tails=tails)
 
@@ -126,6 +135,8 @@ def run_case(case):
         mbw = [0.02, 0.05, 0.004][case["seed"] % 7 % 3] if K <= 10 else 1e-3
         mbh = [0.01, 0.03, 0.06][case["seed"] % 5 % 3]
         kw["min_bin_width"], kw["min_bin_height"] = mbw, mbh
+    if fam == "quadratic" and ps == "huge" and case["seed"] % 2:
+        kw["min_bin_height"] = 0.0          # legal; the heights' own floor is what keeps the spline a bijection
     wx, wy = right - left, top - bottom
     xk = splineref.knots(fam, params, left, right, bottom, top, tails=tails, min_bin_width=mbw)["x"].to(dtype)
     boxkind = "tails" if tails else ("square" if abs(wx - wy) < 1e-12 and abs(left - bottom) < 1e-12 else "nonsquare")
